@@ -346,7 +346,7 @@ func (c *c39) mutations(cs c39case, only *c39case) {
 			subs = append(subs, v)
 		}
 	} else {
-		subs = []int{0x00, '!', '=', 'A', 0xFF, ':', '\n', '\r', ' ', '-', '_', '>', '^', -1, -2, -3}
+		subs = []int{0x00, '!', '=', 'A', 0xFF, ':', '\n', '\r', ' ', '-', '_', '>', '^', -1, -2, -3, -4}
 	}
 	for off := 0; off < len(tail); off++ {
 		o := tail[off]
@@ -359,6 +359,8 @@ func (c *c39) mutations(cs c39case, only *c39case) {
 				b = o ^ 0x80
 			case -3:
 				b = nextB64(o)
+			case -4:
+				b = o ^ 0x20 // rev9: the other case of a letter (header compared case-insensitively, folded base64)
 			}
 			if b == o {
 				continue
